@@ -6,6 +6,7 @@
 From Coq Require Import List ZArith Bool Lia.
 Import ListNotations.
 Require Import ExprParser ExprSound ExprComplete ExprTotal ExprEval ExprFacts.
+Require Base ExprString.
 
 Section C01.
   Variable V : Type.
@@ -45,6 +46,24 @@ Section C01.
     Forall2 (fun e v => eval V const var bin un callf e = Val v) (list_of args) vs ->
     eval V const var bin un callf (ECall f args) = callf f vs.
   Proof. exact (call_args_in_order V const var bin un callf). Qed.
+  (* at string level: SetExpression + Evaluate on the text of a printed item sequence (ExprString.v: the expression
+     tokenizer with the parser's options, lexical completion, parser, stack machine) is the value of its syntax tree;
+     constants and variables are identified by the position of their token in the text, so const / var read the text *)
+  Definition calculate_text (s : Base.str) : option (res (outcome V)) :=
+    match ExprString.parse_string s with
+    | Some (Ok prog) => Some (Ok (run V const var bin un callf intv as_nat prog []))
+    | Some (Err c) => Some (Err c)
+    | Some Fuel => Some Fuel
+    | None => None
+    end.
+  Theorem C01_text_evaluates_to_the_value_of_its_tree : forall items e, items <> [] -> Forall ExprString.item_ok items ->
+    Base.wf_str (ExprString.print items) -> D0 (ExprString.toks_from 0 items) e ->
+    calculate_text (ExprString.print items) = Some (Ok (eval V const var bin un callf e)).
+  Proof.
+    intros items e H1 H2 H3 HD. unfold calculate_text. rewrite (ExprString.parse_string_of_print items H1 H2 H3).
+    pose proof (calc_is_tree V const var bin un callf intv as_nat as_nat_intv _ _ HD) as Hc. unfold calculate in Hc.
+    destruct (parse_top (ExprString.toks_from 0 items)) as [prog| |]; try discriminate. inversion Hc as [Hr]. reflexivity.
+  Qed.
 End C01.
 
 (* redundant parentheses never change the tree (hence, by the theorems above, never the result) *)
@@ -67,6 +86,7 @@ Example C01_nonvacuous :
 Proof. vm_compute. reflexivity. Qed.
 
 Print Assumptions C01_calculator_result_is_tree_value.
+Print Assumptions C01_text_evaluates_to_the_value_of_its_tree.
 Print Assumptions C01_calculator_only_evaluates_trees.
 Print Assumptions C01_stack_machine_runs_postorder.
 Print Assumptions C01_operands_in_written_order.
